@@ -1,4 +1,4 @@
-import SgVerif.C30.Lemmas
+import SgVerif.C30.Walk2
 /-
 C30 — Derived datatypes have MPI layout and transfer exactly their bytes.  Property theorems.
 
@@ -9,21 +9,24 @@ FULL-STRENGTH statements of the property:
   copy_touches_only_typemap / pack_unpack_roundtrip
                           ∀ t, count: walk o count 0 = Spec.bytesOf (Spec.layout t) count
 What is PROVED below (the model follows the code after props/C30/fix_series):
- * per constructor, ∀ arguments, under "the old type satisfies the spec" (its lb / ub are MPI's, its extent is not
-   negative, and a non-derived old type has the natural bounds lb = 0, ub = size): `lb_ub_extent_eq_spec_indexed`,
-   `_hindexed`, `_indexed_block`, `_hindexed_block` (every branch of create_indexed / create_hindexed, incl. zero-length
-   blocks, old lb ≠ 0, the contiguous shortcut), `_struct` (every member satisfies the spec), `_subarray_ndims1`,
-   `resized_lb_ub_eq_spec`, `dup_layout_eq`;
- * closed under nesting for the indexed family: `lb_ub_extent_eq_spec_idx_trees` — by induction on the tree, for every tree
-   made of basic types, indexed / hindexed / *_block, resized (extent ≥ 0) and dup, at any depth: lb and ub are MPI's;
- * the size of every MPI placement (`spec_size_place`), the round trip of the code's own pack/unpack on the bytes its
-   walk selects (`pack_unpack_roundtrip_partial`, ∀ objects, ∀ counts);
- * the witnesses of the fixed defects as regression theorems (`…_regression`, `decide`): the fixed `build` gives MPI's
-   values on them (the values of the old code are quoted in each docstring; the library replays them from corpus.txt).
-NOT proved (weaker than DESIGN §8 C30): the closure for trees containing struct / vector / contiguous / subarray nodes,
-∀-tree `size_eq_spec`, lb/ub of contiguous / vector / hvector / n-dimensional
-subarray for all arguments, `walk = Spec.bytesOf`: covered by the differential check only.  Still false on the code
-(findings kept): true extent (`true-extent`), uncommitted old type of a ≥ 2-dimensional subarray (`valid-type-rejected`).
+ * `size_eq_spec` — FULL STRENGTH, by induction on the tree: ∀ trees (every constructor, any nesting depth, any arguments),
+   whenever the constructor calls succeed the size is MPI's;
+ * `lb_ub_extent_eq_spec` — by induction on the tree, ∀ trees satisfying `Wf` (strides of vector / hvector ≥ 0, new
+   extents of resized ≥ 0, no struct member with copies of an EMPTY type; everything else unconstrained: block lengths,
+   counts, displacements of any sign and order, subarrays of any ndims ≥ 1 in both orders, dup anywhere): lb, ub, extent
+   are MPI's.  Both exclusions are necessary on this model: `lb_ub_negative_stride_counterexample`,
+   `lb_ub_empty_member_counterexample` (MPI does not define lb / ub of an empty typemap);
+ * `walk_eq_typemap` — ∀ `Wf` trees, ∀ counts, ∀ base addresses: the byte offsets (un)serialize walks are exactly the
+   typemap's offsets, in typemap order (count copies at stride extent); hence `copy_touches_only_typemap` (unpack ∘ pack
+   with the same type copies exactly the bytes `Spec.layout` selects and leaves every other byte untouched — no
+   distinctness hypothesis) and `pack_unpack_roundtrip` (stated on `Spec.bytesOf (Spec.layout t)`);
+ * the per-constructor steps (`lb_ub_extent_eq_spec_indexed`, …), the older closure on the indexed family
+   (`lb_ub_extent_eq_spec_idx_trees`), `pack_unpack_roundtrip_partial` (about the code's own walk) are kept;
+ * the witnesses of the fixed defects as regression theorems (`…_regression`, `decide`).
+Lemmas: Closure.lean, Closure2.lean (`Rel1`: lb / ub / size / natural bounds, preserved by every `mk*`), Walk.lean, Walk2.lean (`W`: walk = typemap).
+Still false on the code (findings kept): true extent (`true-extent`), uncommitted old type of a ≥ 2-dimensional subarray
+(`valid-type-rejected`).  Outside the theorems: negative strides / negative new extents, MPI_LB / MPI_UB members given by
+the user, different send and receive types.
 -/
 namespace SgVerif.C30
 
@@ -327,6 +330,95 @@ theorem lb_ub_extent_eq_spec_idx_trees (t : Tree) (h : IdxTree t) : ∀ o, build
 def slu (t : Tree) : Option (Int × Int × Int) := (build t).map (fun o => (o.info.size, o.info.lb, o.info.ub))
 def specSlu (t : Tree) : Int × Int × Int := ((Spec.layout t).size, (Spec.layout t).lb, (Spec.layout t).ub)
 
+/-! ### closure over ALL constructor trees -/
+
+/-- **size_eq_spec** (FULL STRENGTH): for every constructor tree — contiguous, vector, hvector, indexed, hindexed,
+    indexed_block, hindexed_block, struct, resized, subarray (any ndims ≥ 1, C or Fortran order), dup, nested to any depth,
+    with any arguments — whenever the nest of constructor calls succeeds, the size of the datatype the code builds is the
+    number of bytes of MPI's typemap.  By induction on the tree (`size_tree`). -/
+theorem size_eq_spec (t : Tree) (o : Obj) (h : build t = some o) : o.info.size = (Spec.layout t).size :=
+  size_tree t o h
+
+/-- **lb_ub_extent_eq_spec**: for every constructor tree satisfying `Wf` (vector / hvector strides ≥ 0, resized extents
+    ≥ 0, struct members that have copies are not empty types; any other argument, any depth), whenever the constructor
+    calls succeed, lb, ub and extent of the datatype the code builds are MPI's (min / max over the placed copies, sticky
+    resized markers, ε = 0), and the extent is not negative.  By induction on the tree (`rel_tree`). -/
+theorem lb_ub_extent_eq_spec (t : Tree) (hw : Wf t) (o : Obj) (h : build t = some o) :
+    o.info.lb = (Spec.layout t).lb ∧ o.info.ub = (Spec.layout t).ub ∧ o.info.extent = (Spec.layout t).extent ∧
+      0 ≤ (Spec.layout t).extent :=
+  have r := rel_tree t hw o h
+  ⟨r.lb, r.ub, r.ext, r.ext_nonneg⟩
+
+/-- `Wf` cannot drop "strides ≥ 0": MPI_Type_vector(2, 1, -3, MPI_INT) has lb = -12, ub = 4; the code computes 0 / -8 -/
+theorem lb_ub_negative_stride_counterexample :
+    slu (.vector 2 1 (-3) (.basic 4)) = some (8, 0, -8) ∧ specSlu (.vector 2 1 (-3) (.basic 4)) = (8, -12, 4) := by decide
+
+/-- `Wf` cannot drop "no copies of an empty type in a struct" on this model: the struct {1 × (0 × MPI_INT) at 40} is a
+    non-derived size-0 Datatype with lb = ub = 40 (`Spec` puts the bounds of an empty member at its displacement; MPI
+    leaves lb / ub of an empty typemap undefined), and the shortcut of create_hvector then resets the bounds to 0 -/
+theorem lb_ub_empty_member_counterexample :
+    slu (.hvector 1 1 0 (.struct (.cons 1 40 (.contiguous 0 (.basic 4)) .nil))) = some (0, 0, 0) ∧
+    specSlu (.hvector 1 1 0 (.struct (.cons 1 40 (.contiguous 0 (.basic 4)) .nil))) = (0, 40, 40) := by decide
+
+/-- **walk = typemap**: for every `Wf` tree, every count and every base address, the byte offsets visited by
+    `serialize` / `unserialize` of the object the code builds are exactly the offsets of MPI's typemap of `count`
+    consecutive elements (element k at k · extent), in typemap order.  By induction on the tree (`walk_tree`); covers the
+    Type_Contiguous / Hvector / Vector / Hindexed / Indexed / Struct objects, the "contiguous" shortcuts of
+    create_hvector / vector / indexed / hindexed / struct, the resized struct with its MPI_LB / MPI_UB markers, the chain
+    vector → hvector … → hindexed → resized of create_subarray, and clone. -/
+theorem walk_eq_typemap (t : Tree) (hw : Wf t) (o : Obj) (h : build t = some o) (count base : Int) :
+    walk o count base = (Spec.bytesOf (Spec.layout t) count).map (· + base) :=
+  walk_tree t hw o h count base
+
+theorem walk_eq_typemap_zero (t : Tree) (hw : Wf t) (o : Obj) (h : build t = some o) (count : Int) :
+    walk o count 0 = Spec.bytesOf (Spec.layout t) count := by
+  rw [walk_eq_typemap t hw o h]; simp
+
+theorem writeAll_map (src : Mem) (os : List Int) : ∀ (m : Mem) (a : Int),
+    writeAll os (os.map src) m a = if a ∈ os then src a else m a := by
+  induction os with
+  | nil => intro m a; simp [writeAll]
+  | cons o os ih =>
+    intro m a
+    simp only [List.map_cons, writeAll, ih, List.mem_cons]
+    by_cases h1 : a ∈ os
+    · simp [h1]
+    · by_cases h2 : a = o
+      · subst h2; simp [h1]
+      · simp [h1, h2]
+
+/-- **copy_touches_only_typemap** (send → receive / pack → unpack with the same datatype and count): the destination ends
+    with the source's byte at every offset of MPI's typemap and is untouched everywhere else.  ∀ `Wf` trees, ∀ counts,
+    ∀ memories; overlapping typemap entries allowed. -/
+theorem copy_touches_only_typemap (t : Tree) (hw : Wf t) (o : Obj) (h : build t = some o) (count : Int) (src dst : Mem)
+    (a : Int) :
+    unserialize o count (serialize o count src) dst a =
+      if a ∈ Spec.bytesOf (Spec.layout t) count then src a else dst a := by
+  unfold unserialize serialize
+  rw [walk_eq_typemap_zero t hw o h, writeAll_map]
+
+/-- the packed stream is the source's bytes at the typemap offsets, in typemap order -/
+theorem serialize_eq_typemap (t : Tree) (hw : Wf t) (o : Obj) (h : build t = some o) (count : Int) (src : Mem) :
+    serialize o count src = (Spec.bytesOf (Spec.layout t) count).map src := by
+  unfold serialize; rw [walk_eq_typemap_zero t hw o h]
+
+/-- **pack_unpack_roundtrip** (promoted from `_partial`: now about MPI's typemap): packing what was unpacked from a packed
+    stream gives the same stream, every typemap offset of the destination holds the source byte, every other byte of the
+    destination is untouched -/
+theorem pack_unpack_roundtrip (t : Tree) (hw : Wf t) (o : Obj) (h : build t = some o) (count : Int) (src dst : Mem) :
+    serialize o count (unserialize o count (serialize o count src) dst) = serialize o count src ∧
+    (∀ a, a ∈ Spec.bytesOf (Spec.layout t) count → unserialize o count (serialize o count src) dst a = src a) ∧
+    (∀ a, a ∉ Spec.bytesOf (Spec.layout t) count → unserialize o count (serialize o count src) dst a = dst a) := by
+  refine ⟨?_, ?_, ?_⟩
+  · have key : ∀ a ∈ walk o count 0, unserialize o count (serialize o count src) dst a = src a := by
+      intro a ha
+      rw [walk_eq_typemap_zero t hw o h] at ha
+      rw [copy_touches_only_typemap t hw o h, if_pos ha]
+    exact List.map_congr_left key
+  · intro a ha; rw [copy_touches_only_typemap t hw o h, if_pos ha]
+  · intro a ha; rw [copy_touches_only_typemap t hw o h, if_neg ha]
+
+
 /-- indexed over an old type with lb ≠ 0.  MPI_Type_indexed(1, [2], [0], MPI_Type_indexed(1, [1], [1], MPI_INT)):
     the old code gave (8, 0, 16) (`bl·ub_old`, first block's lb without `+ lb_old`) -/
 theorem lb_ub_extent_eq_spec_indexed_regression :
@@ -413,5 +505,22 @@ example : IdxTree (.indexed [(0, 7), (2, 1), (1, 0)] (.resized 4 24 (.hindexedBl
 example : slu (.indexed [(0, 7), (2, 1), (1, 0)] (.resized 4 24 (.hindexedBlock 2 [8, 0] (.basic 4)))) = some (48, 4, 76) ∧
     specSlu (.indexed [(0, 7), (2, 1), (1, 0)] (.resized 4 24 (.hindexedBlock 2 [8, 0] (.basic 4)))) = (48, 4, 76) := by
   decide
+
+/-- non-vacuity of the ∀-tree theorems: a `Wf` tree with a struct (member out of order, a zero-length member, a member whose
+    lb is not 0), a strided vector, a contiguous of a derived type, a 2-D Fortran-order subarray, a resize and a dup -/
+def bigTree : Tree :=
+  .dup (.resized 4 200 (.struct (.cons 2 64 (.vector 2 1 3 (.basic 4))
+    (.cons 0 500 (.basic 8)
+    (.cons 1 0 (.contiguous 2 (.indexed [(1, 1)] (.basic 4)))
+    (.cons 1 128 (.subarray [(4, 2, 1), (3, 2, 0)] false (.basic 2)) .nil))))))
+example : Wf bigTree := by
+  simp only [bigTree, Wf, WfM]; decide
+example : slu bigTree = some (32, 4, 204) ∧ specSlu bigTree = (32, 4, 204) := by decide
+example : (build bigTree).map (fun o => walk o 2 0) = some (Spec.bytesOf (Spec.layout bigTree) 2) ∧
+    (Spec.bytesOf (Spec.layout bigTree) 2).length = 64 ∧ (Spec.bytesOf (Spec.layout bigTree) 1).take 6 = [64, 65, 66, 67, 76, 77] := by
+  decide
+/-- a subarray of a derived type is accepted for ndims = 1 (the theorems are not vacuous for nested subarrays) -/
+example : slu (.subarray [(5, 2, 1)] true (.vector 2 1 2 (.basic 4))) = some (16, 0, 60) ∧
+    specSlu (.subarray [(5, 2, 1)] true (.vector 2 1 2 (.basic 4))) = (16, 0, 60) := by decide
 
 end SgVerif.C30
